@@ -13,7 +13,7 @@ from __future__ import annotations
 import ast
 from typing import Any
 
-from ..core import Func, U
+from ..core import Func, U, own_nodes
 from ..ctx import Ctx
 from ..report import RuleResult
 from ..valnum import VN, analyse, entry
@@ -168,7 +168,19 @@ def rule_prog(c: Ctx) -> RuleResult:
             if not (n.kind == "stmt" and isinstance(n.ast, ast.Return)) or res.get(n.id) is None:
                 continue
             env = res[n.id]
+            if n.ast.value is not None and any(isinstance(x, ast.Call) for x in ast.walk(n.ast.value)):
+                # `return helper(state, ...)`: the state the caller sees is the one after the calls in the returned expression
+                lab = next((l for (m_, l) in n.succ if l != "exc"), "return")
+                succ = next((m_ for (m_, l) in n.succ if l != "exc"), cfg.exit)
+                env = vn.edge(n, env, lab, succ) or env
             kind = _ret_kind(n.ast.value)
+            if kind == "?" and isinstance(n.ast.value, ast.Call):
+                # a helper that always reports the same result
+                cs_ = c.cg.site_of.get(n.ast.value)
+                if cs_ is not None and len(cs_.callees) == 1 and cs_.kind in ("direct", "method"):
+                    hk = {_ret_kind(x.value) for x in own_nodes(cs_.callees[0].node) if isinstance(x, ast.Return)}
+                    if len(hk) == 1 and hk != {"?"}:
+                        kind = hk.pop()
             vpos, vmax = VN.get(env, kpos), VN.get(env, kmax)
             where = c.where(f, n.ast)
             base = f"{f.short}|return {U(n.ast.value) if n.ast.value else ''}|"
